@@ -18,13 +18,13 @@ CHECKS = {
  "C01": ("storesim", "fault_enumeration", "DESIGN.md 7/C01", T + "seeded crash-point / power-loss-image search over ingest+restart histories of the real store on a simulated disk, refinement against a reference model",
    "Seeded search over ingest histories x crash points (k-th write/sync/any mutating disk operation of the write path, power-loss images with lost and torn tails, process exit; in 15% one failing write or fsync after which the store goes on) x 1-4 restart+ingest rounds on the real FracManager+GrpcV1; after every restart all acknowledged documents are searchable by every token and fetchable byte for byte, unacknowledged bulks all-or-none, the store comes back up.", TRUST),
  "C03": ("storesim", "exploration", "DESIGN.md 7/C03", T + "seeded corpora and knob swarm; the same battery answered by active / sealed-preloaded / sealed-from-file fractions under timer-driven cache eviction, compared with a reference model",
-   "Seal, restart and cache eviction are driven as simulated I/O transitions and timer events; the battery must equal the model in every form; a quarter of the cases add one transient read error on the index file while the caches are refilled (nothing wrong may stay cached). Shape coverage is what the knob swarm and corpus generator reach, not exhaustive over corpora.", TRUST),
+   "Seal, restart and cache eviction are driven as simulated I/O transitions and timer events; the battery must equal the model in every form; a quarter of the cases add one transient read error on the index file, or on the documents file, while the caches are refilled (nothing wrong may stay cached or pooled). Shape coverage is what the knob swarm and corpus generator reach, not exhaustive over corpora.", TRUST),
  "C05": ("storesim", "exploration", "DESIGN.md 7/C05", T + "multi-node simulation: real stores behind the real proxy client and search ingestor on a simulated transport; fraction/shard layouts are produced by simulated histories; metamorphic comparison with a single-corpus reference model incl. page-by-page walks",
    "Layouts (which fraction on which shard holds which document, active or sealed, overlapping ranges) arise from seeded ingest histories, rotations at different moments per node, restarts; the proxy's answers (top ids, totals, histograms, pages, documents stream) must equal the model over the union; documents present on several shards are listed once (counts compared when the listing covers the whole result).", TRUST),
  "C06": ("storesim", "exploration", "DESIGN.md 7/C06", T + "multi-node simulation of the merge-order facet: per-fraction partial results merged per store, shard replies merged by the proxy in simulated arrival order; every aggregation bin and histogram bucket compared with directly computed values",
    "Decides the merge-order/grouping facet of C06 (and the store<->proxy bin conversion); value coverage is what the generator produces (integers -5..40 as numeric field, three group values, not-exists cases).", TRUST),
  "C07": ("storesim", "exploration", "DESIGN.md 7/C07", T + "seeded schedule exploration (pre-emption at every lock/channel/wait and at statement level) of writers, readers, maintenance loop and cache cleaner on the real store; invariants inside readers, model equality at quiescence, liveness on the simulated clock",
-   "Explores interleavings of critical sections, channel hand-offs and statements; checks no panic/deadlock/error, every returned ID submitted+matching+fetchable with exact bytes, full equality with the sequential model once writers are idle. Does not detect data races as such.", TRUST),
+   "Explores interleavings of critical sections, channel hand-offs and statements; checks no panic/deadlock/error, every returned ID submitted+matching+fetchable with exact bytes, full equality with the sequential model once writers are idle; some reader searches are built to fail inside the fractions, and at quiescence no search worker slot or in-flight count of the store API may be held (a slot never given back is deadlock by exhaustion). Does not detect data races as such.", TRUST),
  "C08": ("storesim", "fault_enumeration", "DESIGN.md 7/C08", T + "crash-point enumeration (k-th disk operation of a seal, consecutive seeds walk k) and k-th-I/O-error injection on the index/sorted-docs outputs, restart, refinement against the model",
    "Every seal is hit by exactly one planned fault: crash/exit at the k-th mutating disk operation or a failing write/sync/rename/create; the published fraction is validated at once and after restart; all documents must remain searchable and fetchable.", TRUST),
  "C14": ("storesim", "exploration", "DESIGN.md 7/C14", T + "simulated-clock exploration: document times relative to the fake clock, clock jumps, restart with tampered .frac-cache; results compared with a model that examines every document",
@@ -34,11 +34,11 @@ CHECKS = {
  "C17": ("storesim", "exploration", "DESIGN.md 7/C17", T + "seeded re-delivery histories incl. concurrent repeats under schedule exploration, seal and restart; set-semantics reference model",
    "Re-delivered documents are listed once and fetch their original bytes; totals, histograms, aggregations and document counts count them once while all copies sit in one fraction; includes documents with nested elements (several metas under one ID).", TRUST),
  "C09": ("proxysim", "fault_enumeration", "DESIGN.md 7/C09", T + "scripted per-call outcomes (success/error/timeout/late success/lost reply) on a simulated transport against the real bulk client and real circuit breaker under a fake clock; oracle over the recorded call log",
-   "For every acknowledged bulk the stubs' call log must contain, for one hot shard (and one long-term shard when configured), a successful delivery of exactly that payload to every replica; retries are bounded; once faults stop a bulk goes through within a bounded number of breaker sleep windows. Request deadlines and cancellations are part of the fault space. A second lane runs the client against real stores that crash in the middle of their writes, lose replies and are partitioned: after recovery every acknowledged bulk sits byte for byte on every replica of some hot (and long-term) shard.", TRUST),
+   "For every acknowledged bulk the stubs' call log must contain, for one hot shard (and one long-term shard when configured), a successful delivery of exactly that payload to every replica; retries are bounded; once faults stop a bulk goes through within a bounded number of breaker sleep windows. Request deadlines and cancellations are part of the fault space; a fifth of the context-free cases hand documents to the real bulk.Ingestor (pooled compressor) with 2-3 clients at once. A second lane runs the client against real stores that crash in the middle of their writes, lose replies and are partitioned: after recovery every acknowledged bulk sits byte for byte on every replica of some hot (and long-term) shard.", TRUST),
  "C10": ("proxysim", "exploration", "DESIGN.md 7/C10", T + "simulated request-body stream (seeded chunking, cut, read error, gzip) and simulated clock against the real HTTP bulk handler and bulk ingestor; independent framing parser and time rule as oracle; metamorphic equality across chunkings",
-   "Decides the stream/clock facet of C10: the line reader hands out slices of a reused buffer, so what is stored may depend on how the body arrives; the receive time is the clock; the storage call can fail. Valid object documents must be stored verbatim once each, timed by rule, or nothing stored; identical for every chunking; also with one long-lived ingestor across requests at different simulated times and with 2-4 requests in flight at once after a failed store call. The full input space of JSON shapes is not claimed.", TRUST),
+   "Decides the stream/clock facet of C10: the line reader hands out slices of a reused buffer, so what is stored may depend on how the body arrives; the receive time is the clock; the storage call can fail. Valid object documents must be stored verbatim once each, timed by rule, or nothing stored; identical for every chunking; also with one long-lived ingestor across requests at different simulated times and with 2-4 requests in flight at once after a failed store call (plain or gzip bodies, the latter after a request that announces gzip and is not); slow uploads (time passes between chunks: the time of receipt decides); the configuration passes through the defaulting of proxyapi.NewIngestor, zero drifts included; after every request the ingestor holds all its rate-limit tickets again. The full input space of JSON shapes is not claimed.", TRUST),
  "C16": ("proxysim", "fault_enumeration", "DESIGN.md 7/C16", T + "scripted per-call store behaviours and broken fetch streams on a simulated transport against the real search ingestor and docs iterators; oracle computed from the script and a model corpus",
-   "For every assignment of per-call behaviours the proxy's answer is an error, or the correct merged top over exactly the shards that had an answering replica - flagged partial iff one had none - with the long-term tier consulted iff a hot store declares the range too old, and the i-th document belonging to the i-th id, or empty only if a fetch call that was asked for it did not deliver it; 15% of the requests go through the gRPC layer (proxyapi Export), whose stream must not end with status OK after a partial search. A second lane runs the same proxy code against real stores (hot tier under retention, long-term tier, stores killed / losing power / partitioned): unflagged answers must be complete, and a mature hot store must declare ranges older than its oldest remaining fraction.", TRUST),
+   "For every assignment of per-call behaviours the proxy's answer is an error, or the correct merged top over exactly the shards that had an answering replica - flagged partial iff one had none - with the long-term tier consulted iff a hot store declares the range too old, and the i-th document belonging to the i-th id, or empty only if a fetch call that was asked for it did not deliver it; 15% of the requests go through the gRPC layer (proxyapi Export), whose stream must not end with status OK after a partial search or after its deadline cut the stream, another 15% through the Search/ComplexSearch handlers with their own deadline of 10-70 simulated ms; fetch streams may stall before they break; in a fifth of the cases the requests are in flight at once on one ingestor. A second lane runs the same proxy code against real stores (hot tier under retention, long-term tier, stores killed / losing power / partitioned): unflagged answers must be complete, and a mature hot store must declare ranges older than its oldest remaining fraction.", TRUST),
  "C18": ("cachesim", "exploration", "DESIGN.md 7/C18", T + "seeded schedule exploration of concurrent cache callers and the cleaner on the real cache package; per-call invariants, accounting/bucket/limit invariants at quiescence, porcupine linearizability check of the lookup history against a register-with-eviction model",
    "Explores interleavings of getOrCreate/save/recover/Cleanup/Rotate/ReleaseBuckets at lock and statement granularity: every lookup returns a finished value of the requested (cache,key) from a successful load, failures reach exactly the caller that ran the loader, no caller is parked forever, accounted size equals the sum of live entries, the limits of cleaners built by the store's own wiring (FillConfigWithDefault + NewCacheMaintainer) are positive and sum to at most the configured cache size, live caches stay managed, released ones are dropped, a quiet cleaning pass restores the limit.", TRUST),
  "C19": ("storesim", "fault_enumeration", "DESIGN.md 7/C19", T + "crash after the k-th persisted partial result / inside the atomic file write of the asynchronous searcher, restart, bounded liveness on the simulated clock, equality with the synchronous search and the model",
